@@ -454,6 +454,9 @@ class Exec:
                 return ("map", ("bv", self.bound + 1), args[0])  # [i for i in range(..)]
         if f == ("sym", "int") and len(args) == 1 and is_const(args[0]) and type(args[0][1]) is int:
             return args[0]
+        if f == ("sym", "slice") and 1 <= len(args) <= 3 and not kwargs:
+            lo, hi, st = (NONE, args[0], NONE) if len(args) == 1 else (args[0], args[1], args[2] if len(args) == 3 else NONE)
+            return ("slice", lo, hi, st)  # slice(a, b) objects are slices
         if f == ("sym", "map") and len(args) == 2 and args[0][0] in ("sym", "attr") and not kwargs:
             return ("map", ("call", args[0], (("bv", self.bound + 1),), ()), args[1])  # map(f, xs) is [f(x) for x in xs]
         if f == ("sym", "sum") and len(args) == 1 and args[0][0] in ("list", "tuple", "gen") and all(is_const(x) and type(x[1]) is int for x in args[0][1]) and not kwargs:
